@@ -16,12 +16,14 @@ import (
 	"sync"
 	"time"
 
+	"filippo.io/age"
 	"go4.org/jsonconfig"
 	"go4.org/syncutil"
 	"perkeep.org/pkg/blob"
 	"perkeep.org/pkg/blobserver"
 	"perkeep.org/pkg/blobserver/diskpacked"
 	"perkeep.org/pkg/blobserver/files"
+	"perkeep.org/pkg/blobserver/memory"
 	"perkeep.org/pkg/sorted"
 )
 
@@ -246,10 +248,10 @@ type c13backend struct {
 	readOnly bool  // blobs are preloaded into the leaves; no receive / remove through the backend
 	initial  []int // the blobs (indices) preloaded
 	build    func(dir string, inj *c13injector) (blobserver.Storage, func(), error)
-	recover  func(dir string) error // the backend's own recovery procedure, run on the directory after the history
+	recover  func(dir string, inj *c13injector) (blobserver.Storage, func(), error) // the backend's own recovery procedure, run after the history; returns the rebuilt store
 }
 
-func c13tree(spec *cfgNode) func(string, *c13injector) (blobserver.Storage, func(), error) {
+func c13tree(spec *cfgNode, preload ...func(root *cfgNode)) func(string, *c13injector) (blobserver.Storage, func(), error) {
 	return func(dir string, inj *c13injector) (blobserver.Storage, func(), error) {
 		b := newBuilder(dir)
 		name := fmt.Sprintf("inj-%p", inj)
@@ -268,6 +270,9 @@ func c13tree(spec *cfgNode) func(string, *c13injector) (blobserver.Storage, func
 		root := cloneCfg(spec)
 		if err := b.build(root); err != nil {
 			return nil, nil, err
+		}
+		for _, f := range preload {
+			f(root)
 		}
 		return root.sto, func() {
 			root.walk(func(n *cfgNode) {
@@ -289,6 +294,50 @@ func cloneCfg(n *cfgNode) *cfgNode {
 
 var c13blobs []*c03blob
 
+// encrypt over two faulty memory stores and a faulty index; its recovery is the meta re-scan into an empty index
+type c13encState struct {
+	blobs, meta *memory.Storage
+	keyFile     string
+}
+
+var c13enc = map[*c13injector]*c13encState{}
+
+func c13Encrypt(dir string, inj *c13injector) (blobserver.Storage, func(), error) {
+	ld := newLoader()
+	st := &c13encState{blobs: &memory.Storage{}, meta: &memory.Storage{}, keyFile: filepath.Join(dir, "key")}
+	id, _ := age.GenerateX25519Identity()
+	os.WriteFile(st.keyFile, []byte(id.String()+"\n"), 0o600)
+	ld.set("/encblobs/", &c13store{s: st.blobs, inj: inj, name: "/encblobs/"})
+	ld.set("/encmeta/", &c13store{s: st.meta, inj: inj, name: "/encmeta/"})
+	name := fmt.Sprintf("inj-%p", inj)
+	c13mu.Lock()
+	c13inj[name] = inj
+	c13enc[inj] = st
+	c13mu.Unlock()
+	s, err := blobserver.CreateStorage("encrypt", ld, jsonconfig.Obj{"I_AGREE": encAgreement, "keyFile": st.keyFile, "blobs": "/encblobs/", "meta": "/encmeta/",
+		"metaIndex": map[string]any{"type": "verifkv13", "name": name, "inner": kvConf("memory", dir, "encindex")}})
+	if err != nil {
+		return nil, nil, err
+	}
+	return s, func() {}, nil
+}
+
+func c13EncryptRecover(dir string, inj *c13injector) (blobserver.Storage, func(), error) {
+	c13mu.Lock()
+	st := c13enc[inj]
+	delete(c13enc, inj)
+	c13mu.Unlock()
+	if st == nil {
+		return nil, nil, nil
+	}
+	ld := newLoader()
+	ld.set("/encblobs/", st.blobs)
+	ld.set("/encmeta/", st.meta)
+	s, err := blobserver.CreateStorage("encrypt", ld, jsonconfig.Obj{"I_AGREE": encAgreement, "keyFile": st.keyFile, "blobs": "/encblobs/", "meta": "/encmeta/",
+		"metaIndex": map[string]any{"type": "memory"}})
+	return s, func() {}, err
+}
+
 func c13Backends() []c13backend {
 	mem := func() *cfgNode { return &cfgNode{Kind: "leaf", Leaf: "memory"} }
 	return []c13backend{
@@ -298,7 +347,7 @@ func c13Backends() []c13backend {
 			return files.NewStorage(&c13vfs{VFS: files.OSFS(), inj: inj}, root), func() {}, nil
 		}},
 		{name: "diskpacked(faulty index, packs of 120 bytes)", build: c13tree(&cfgNode{Kind: "leaf", Leaf: "diskpacked", Detail: "120,memory"}),
-			recover: func(dir string) error {
+			recover: func(dir string, _ *c13injector) (blobserver.Storage, func(), error) {
 				// the pack directory is the leaf's directory: find it
 				var packDir string
 				filepath.Walk(dir, func(p string, fi os.FileInfo, err error) error {
@@ -308,13 +357,27 @@ func c13Backends() []c13backend {
 					return nil
 				})
 				if packDir == "" {
-					return nil
+					return nil, nil, nil
 				}
-				return diskpacked.Reindex(context.Background(), packDir, true, jsonconfig.Obj{"type": "memory"})
+				ixc := map[string]any{"type": "leveldb", "file": filepath.Join(packDir, "rebuilt.leveldb")}
+				if err := diskpacked.Reindex(context.Background(), packDir, true, jsonconfig.Obj(ixc)); err != nil {
+					return nil, nil, err
+				}
+				st, err := blobserver.CreateStorage("diskpacked", newLoader(), jsonconfig.Obj{"path": packDir, "maxFileSize": float64(120), "metaIndex": ixc})
+				if err != nil {
+					return nil, nil, err
+				}
+				return st, func() { st.(io.Closer).Close() }, nil
 			}},
-		{name: "encrypt(over faulty stores and index)", noRemove: true, build: c13tree(&cfgNode{Kind: "leaf", Leaf: "encrypt", Detail: "memory"})},
+		{name: "encrypt(over faulty stores and index)", noRemove: true, build: c13Encrypt, recover: c13EncryptRecover},
 		{name: "namespace[memory](faulty inventory)", build: c13tree(&cfgNode{Kind: "namespace", Detail: "memory", Kids: []*cfgNode{mem()}})},
-		{name: "overlay[memory memory](faulty)", build: c13tree(&cfgNode{Kind: "overlay", Detail: "memory", HasDel: true, Kids: []*cfgNode{mem(), mem()}})},
+		{name: "overlay[memory memory](faulty)", initial: []int{0, 2}, build: c13tree(&cfgNode{Kind: "overlay", Detail: "memory", HasDel: true, Kids: []*cfgNode{mem(), mem()}}, func(root *cfgNode) {
+			// the lower layer holds blobs 1 and 3 already (loaded below the fault injection)
+			under := root.Kids[0].sto.(*c13store).s
+			for _, id := range []int{0, 2} {
+				under.ReceiveBlob(context.Background(), c13blobs[id].ref, bytes.NewReader(c13blobs[id].content))
+			}
+		})},
 		{name: "proxycache[memory memory]", build: c13tree(&cfgNode{Kind: "proxycache", Kids: []*cfgNode{mem(), mem()}})},
 		{name: "union[memory memory]", readOnly: true, initial: []int{0, 1, 2}, build: func(dir string, inj *c13injector) (blobserver.Storage, func(), error) {
 			b := newBuilder(dir)
@@ -517,6 +580,16 @@ func runC13(c *ctx) {
 		for h := 0; h < c.n(4, 12); h++ {
 			var ops []c13op
 			nops := 12 + c.rng.Intn(5)
+			if h == 0 && !be.readOnly {
+				// every upload is retried once (a client does that after an error), every removal too
+				nops = 0
+				for b := range blobs {
+					ops = append(ops, c13op{"receive", b}, c13op{"receive", b}, c13op{"stat", b})
+				}
+				if !be.noRemove {
+					ops = append(ops, c13op{"remove", 0}, c13op{"remove", 0}, c13op{"remove", 2}, c13op{"remove", 2}, c13op{"enum", 0})
+				}
+			}
 			for i := 0; i < nops; i++ {
 				b := c.rng.Intn(len(blobs))
 				r := c.rng.Intn(10)
@@ -567,7 +640,7 @@ func runC13(c *ctx) {
 			cl()
 			n := inj.n
 			c.count("backends", be.name)
-			c13Judge(c, be, ops, outs, nil, "no fault", d0, armAfter)
+			c13Judge(c, be, ops, outs, nil, "no fault", d0, armAfter, inj)
 			// single faults at every k, then bursts
 			var plans []map[int]bool
 			step := 1
@@ -604,7 +677,7 @@ func runC13(c *ctx) {
 					}
 				}
 				cl()
-				c13Judge(c, be, ops, outs, what, strings.Join(what, ", "), d, armAfter)
+				c13Judge(c, be, ops, outs, what, strings.Join(what, ", "), d, armAfter, inj)
 				os.RemoveAll(d)
 			}
 			os.RemoveAll(d0)
@@ -617,7 +690,7 @@ func c13RunArmed(c *ctx, be c13backend, dir string, ops []c13op, blobs []*c03blo
 	return c13Run(c, be, dir+"x", ops, blobs, fail, armAfter)
 }
 
-func c13Judge(c *ctx, be c13backend, ops []c13op, outs []c13out, faults []string, what, dir string, armAfter int) {
+func c13Judge(c *ctx, be c13backend, ops []c13op, outs []c13out, faults []string, what, dir string, armAfter int, inj *c13injector) {
 	c.rep.SpecChecks++
 	desc := map[string]any{"backend": be.name, "faults": what, "history": c13Human(ops, outs)}
 	nfailed := 0
@@ -674,8 +747,52 @@ func c13Judge(c *ctx, be c13backend, ops []c13op, outs []c13out, faults []string
 	}
 	if be.recover != nil {
 		c.rep.SpecChecks++
-		if err := be.recover(dir + "x"); err != nil {
+		rs, rcl, err := be.recover(dir+"x", inj)
+		if err != nil {
 			c.violation(idx, "c13-recovery-fails", fmt.Sprintf("%s, fault at %s: the recovery procedure fails afterwards: %v", be.name, what, err), desc)
+		} else if rs != nil {
+			// the rebuilt store serves what the store served at the end of the (fault-free) probe
+			last := outs[len(outs)-1]
+			if len(outs) == len(ops) && ops[len(ops)-1].kind == "enum" && !last.failed && !last.hung {
+				want := map[int]bool{}
+				for _, id := range last.list {
+					want[id] = true
+				}
+				for _, b := range c13blobs {
+					data, _, ferr := fetchAll(rs, b.ref)
+					sbs, _ := statAll(rs, []blob.Ref{b.ref})
+					got := ferr == nil && bytes.Equal(data, b.content) && len(sbs) == 1
+					if want[b.id-1] && !got {
+						c.violation(idx, "c13-recovery-loses-blob", fmt.Sprintf("%s, fault at %s: blob #%d was served at the end of the history and is gone (fetch: %v, stat: %d) after the recovery procedure", be.name, what, b.id, ferr, len(sbs)), desc)
+						break
+					}
+					if !want[b.id-1] && (ferr == nil || len(sbs) > 0) {
+						// an upload that failed may still surface later (read as done); a blob whose removal was
+						// acknowledged, with no upload of it attempted since, may not come back
+						removed := false
+						for i, op := range ops[:len(outs)] {
+							if op.b != b.id-1 {
+								continue
+							}
+							switch op.kind {
+							case "remove":
+								removed = !outs[i].failed
+							case "receive":
+								removed = false
+							}
+						}
+						if removed {
+							c.violation(idx, "c13-recovery-resurrects-removed-blob", fmt.Sprintf("%s, fault at %s: the removal of blob #%d was acknowledged, no upload of it followed, and it is served again after the recovery procedure", be.name, what, b.id), desc)
+							break
+						}
+						c.count("recoveries surfacing a blob of a failed upload", be.name)
+					}
+				}
+				c.count("recoveries compared", be.name)
+			}
+			if rcl != nil {
+				rcl()
+			}
 		}
 	}
 }
